@@ -7,3 +7,8 @@ import RaftWal.Props.C11
 #print axioms RaftWal.C11.scan_advances
 #print axioms RaftWal.C11.scan_offsets_in_file
 #print axioms RaftWal.C11.readFrame_rejects_oversize
+#print axioms RaftWal.C11.open_fails_on_missing_sealed
+#print axioms RaftWal.C11.open_fails_on_short_sealed
+#print axioms RaftWal.C11.open_fails_on_foreign_header
+#print axioms RaftWal.C11.open_ok_characterised
+#print axioms RaftWal.C11.open_total
